@@ -131,7 +131,11 @@ pub mod fallback {
     // Returns the least non-negative remainder of `x` (mod `m`).
     #[inline]
     pub fn rem_euclid(x: f32, m: f32) -> f32 {
-        x % m + (x.is_sign_negative() as u32 as f32) * m
+        // Shift only a negative remainder. Adding `m` for every negative `x`
+        // maps exact multiples of `m` (remainder -0.0) and -0.0 to `m`
+        // itself rather than to zero.
+        let r = x % m;
+        if r < 0.0 { r + abs(m) } else { r }
     }
     /// Returns the approximate reciprocal of the square root of `x`.
     #[inline]
